@@ -230,7 +230,7 @@ def encoder_arms(an, prog):
                 for _, tt, c in calls:
                     m = re.match(r"^core::(num|f32|f64)::<impl ([uif]\d+)>::to_be_bytes$", c.npath)
                     if m:
-                        width = {"u8": 1, "u16": 2, "u32": 4, "i32": 4, "u64": 8, "u128": 16, "f64": 8, "f32": 4}.get(m.group(2))
+                        width = int(m.group(2)[1:]) // 8        # `<impl iN / uN / fN>::to_be_bytes` writes N / 8 bytes
                     if c.npath in ("std::net::Ipv4Addr::octets",):
                         width = 4
                     if c.npath in ("std::net::Ipv6Addr::octets",):
